@@ -8,7 +8,7 @@ Definition valid_nodeb (sn : eds_snapshot) (cspec : canary_spec) (u : ers) (nn :
   existsb (fun n => N.eqb (n_name n) nn && fit (r_tmpl u) n) (canary_candidate_nodes sn cspec).
 
 (** monitors on one written status carrying a canary block; [prev] = the list read *)
-Definition mon_status (sn : eds_snapshot) (e : eds) (cspec : canary_spec) (u : ers) (st' : eds_status) : list N :=
+Definition mon_status (sn : eds_snapshot) (e : eds) (cspec : canary_spec) (u : ers) (reported_error : bool) (st' : eds_status) : list N :=
   match es_canary st' with
   | None => []
   | Some c' =>
@@ -26,7 +26,11 @@ Definition mon_status (sn : eds_snapshot) (e : eds) (cspec : canary_spec) (u : e
               (if all_valid then [] else if changed then [11%N] else [111%N]) ++
               code_if (negb changed || forallb (fun nn => negb (valid_nodeb sn cspec u nn) || memN nn nodes') prev) 12 ++
               code_if (negb changed || subsetNb nodes' prev || (zlen nodes' <=? nb)) 13 ++
-              code_if (nb <=? zlen nodes') 14 ++
+              (* fewer nodes than requested: only together with a reported error, and only when no valid candidate
+                 was left out (without anti-affinity keys, which may legitimately reject candidates) *)
+              code_if ((nb <=? zlen nodes') || reported_error) 14 ++
+              code_if ((nb <=? zlen nodes') || negb (Nat.eqb (length (ca_antiaffinity cspec)) 0) ||
+                       forallb (fun n => negb (fit (r_tmpl u) n) || memN (n_name n) nodes') (canary_candidate_nodes sn cspec)) 18 ++
               (* least restarts, without anti-affinity keys: an added node has no more restarts than any
                  valid candidate left out *)
               code_if (negb changed || negb (Nat.eqb (length (ca_antiaffinity cspec)) 0) ||
@@ -46,7 +50,7 @@ Definition mon_eds (sn : eds_snapshot) (obs : eds_obs) : list N :=
   | Some e =>
       if negb (is_defaulted e) then [] else
       match st_canary (e_strategy e), eds_uptodate sn e with
-      | Some cspec, Some u => flat_map (mon_status sn e cspec u) (written_statuses obs)
+      | Some cspec, Some u => flat_map (mon_status sn e cspec u (eo_error obs)) (written_statuses obs)
       | _, _ => []
       end
   end.
